@@ -27,6 +27,15 @@ from typing import Dict, List, Optional, Set
 FUNC = (ast.FunctionDef, ast.AsyncFunctionDef)
 
 
+def _is_static(fn) -> bool:
+    return any(isinstance(d, ast.Name) and d.id == "staticmethod" for d in getattr(fn, "decorator_list", []))
+
+
+def _plain_or_static(fn) -> bool:
+    dl = getattr(fn, "decorator_list", [])
+    return not dl or (len(dl) == 1 and _is_static(fn))
+
+
 # ---------------------------------------------------------------------------------------------- (1) trivial helpers
 def _trivial(fn) -> Optional[ast.AST]:
     if not isinstance(fn, ast.FunctionDef):
@@ -121,8 +130,12 @@ class _Inliner(ast.NodeTransformer):
         fn = recv = None
         if isinstance(f, ast.Name) and f.id in self.by_name:
             fn = self.by_name[f.id]
-        elif isinstance(f, ast.Attribute) and isinstance(f.value, ast.Name) and f.value.id == "self" and f.attr in self.methods:
+        elif isinstance(f, ast.Attribute) and isinstance(f.value, ast.Name) and f.value.id in ("self", getattr(self, "cls_name", "self")) and f.attr in self.methods:
             fn, recv = self.methods[f.attr], f.value
+            if _is_static(fn):
+                recv = None
+            elif f.value.id != "self":
+                return c
         if fn is None:
             return c
         e = _trivial(fn)
@@ -132,7 +145,8 @@ class _Inliner(ast.NodeTransformer):
         if env is None:
             return c
         params = set(env)
-        free = {n.id for n in ast.walk(e) if isinstance(n, ast.Name) and n.id not in params}
+        bound_inside = {n.id for n in ast.walk(e) if isinstance(n, ast.Name) and isinstance(n.ctx, ast.Store)}  # comprehension variables
+        free = {n.id for n in ast.walk(e) if isinstance(n, ast.Name) and n.id not in params and n.id not in bound_inside}
         own_locals = self.stored - set(self.local_helpers)
         if free & own_locals and fn.name not in self.local_helpers:
             return c  # a global the helper reads is shadowed by a local of the caller
@@ -146,7 +160,7 @@ def inline_trivial_helpers(tree: ast.Module) -> int:
     top = {s.name: s for s in tree.body if isinstance(s, ast.FunctionDef) and _trivial(s) is not None and not s.decorator_list}
     total = 0
 
-    def do_function(fn, methods):
+    def do_function(fn, methods, cls_name=None):
         nonlocal total
         nested = {s.name: s for s in ast.walk(fn) if isinstance(s, ast.FunctionDef) and s is not fn and _trivial(s) is not None and not s.decorator_list}
         stored = _stored_names(fn)
@@ -154,19 +168,20 @@ def inline_trivial_helpers(tree: ast.Module) -> int:
         by_name.update(nested)
         by_name.pop(fn.name, None)
         inl = _Inliner(by_name, {k: v for k, v in methods.items() if v is not fn}, stored)
+        inl.cls_name = cls_name or "self"
         inl.local_helpers = set(nested)
         for i, st in enumerate(fn.body):
             fn.body[i] = inl.visit(st)
         total += inl.count
 
-    def walk(body, methods):
+    def walk(body, methods, cls_name=None):
         for st in body:
             if isinstance(st, FUNC):
-                do_function(st, methods)
+                do_function(st, methods, cls_name)
             elif isinstance(st, ast.ClassDef):
                 ms = {s.name: s for s in st.body if isinstance(s, ast.FunctionDef) and s.name.startswith("_") and not s.name.startswith("__")
-                      and not s.decorator_list and _trivial(s) is not None}
-                walk(st.body, ms)
+                      and _plain_or_static(s) and _trivial(s) is not None}
+                walk(st.body, ms, st.name)
 
     for _ in range(3):  # helpers calling helpers
         before = total
@@ -498,15 +513,15 @@ def _straight_line(fn) -> Optional[List[ast.stmt]]:
     """body of a small private helper in a form that can be spliced into a statement list: simple and compound statements,
     every `return` in tail position (rewritten to an assignment of the result), no recursion, no generator, no nested
     definitions, parameters never re-bound"""
-    if not isinstance(fn, ast.FunctionDef) or fn.decorator_list:
+    if not isinstance(fn, ast.FunctionDef) or not _plain_or_static(fn):
         return None
     a = fn.args
     if a.vararg or a.kwonlyargs or a.posonlyargs:
         return None
     body = [s for s in fn.body if not (isinstance(s, ast.Expr) and isinstance(s.value, ast.Constant))]
     n_stmts = sum(1 for st in body for n in ast.walk(st) if isinstance(n, ast.stmt))
-    if len(body) < 2 or n_stmts > 40:
-        return None  # one-statement helpers are handled by (1)
+    if n_stmts > 40 or not body or (len(body) == 1 and isinstance(body[0], ast.Return)):
+        return None  # single-return helpers are handled by (1)
     for st in body:
         for n in ast.walk(st):
             if isinstance(n, (ast.Yield, ast.YieldFrom, ast.Await, ast.NamedExpr, ast.Lambda, ast.Global, ast.Nonlocal)) or isinstance(n, FUNC) or isinstance(n, ast.ClassDef):
@@ -627,7 +642,7 @@ def inline_straight_line_helpers(tree: ast.Module, keep=frozenset()) -> int:
     total = 0
     top = {s.name: s for s in tree.body if isinstance(s, ast.FunctionDef) and s.name.startswith("_") and s.name not in keep and _straight_line(s) is not None}
 
-    def rewrite_block(block, methods, by_name, stored):
+    def rewrite_block(block, methods, by_name, stored, cls_name=None):
         nonlocal total
         i = 0
         while i < len(block):
@@ -646,8 +661,12 @@ def inline_straight_line_helpers(tree: ast.Module, keep=frozenset()) -> int:
                 fn = recv = None
                 if isinstance(f, ast.Name) and f.id in by_name:
                     fn = by_name[f.id]
-                elif isinstance(f, ast.Attribute) and isinstance(f.value, ast.Name) and f.value.id == "self" and f.attr in methods:
+                elif isinstance(f, ast.Attribute) and isinstance(f.value, ast.Name) and f.value.id in ("self", cls_name or "self") and f.attr in methods:
                     fn, recv = methods[f.attr], f.value
+                    if _is_static(fn):
+                        recv = None
+                    elif f.value.id != "self":
+                        fn = None
                 if fn is not None:
                     body = _straight_line(fn)
                     r = _inline_call(fn, body, call, recv, stored) if body is not None else None
@@ -670,29 +689,29 @@ def inline_straight_line_helpers(tree: ast.Module, keep=frozenset()) -> int:
                 for fld in ("body", "orelse", "finalbody"):
                     sub = getattr(st, fld, None)
                     if isinstance(sub, list) and sub and isinstance(sub[0], ast.stmt) and not isinstance(st, FUNC + (ast.ClassDef,)):
-                        rewrite_block(sub, methods, by_name, stored)
+                        rewrite_block(sub, methods, by_name, stored, cls_name)
                 for h in getattr(st, "handlers", []) or []:
-                    rewrite_block(h.body, methods, by_name, stored)
+                    rewrite_block(h.body, methods, by_name, stored, cls_name)
                 i += 1
 
-    def do_function(fn, methods):
+    def do_function(fn, methods, cls_name=None):
         stored = _stored_names(fn)
         nested = {s.name: s for s in fn.body if isinstance(s, ast.FunctionDef) and s.name not in keep and _straight_line(s) is not None}
         by_name = {k: v for k, v in top.items() if k not in stored and v is not fn}
         by_name.update({k: v for k, v in nested.items()})
         ms = {k: v for k, v in methods.items() if v is not fn}
-        rewrite_block(fn.body, ms, by_name, stored)
+        rewrite_block(fn.body, ms, by_name, stored, cls_name)
         for s in fn.body:
             if isinstance(s, FUNC):
-                do_function(s, methods)
+                do_function(s, methods, cls_name)
 
-    def walk(body, methods):
+    def walk(body, methods, cls_name=None):
         for st in body:
             if isinstance(st, FUNC):
-                do_function(st, methods)
+                do_function(st, methods, cls_name)
             elif isinstance(st, ast.ClassDef):
                 ms = {s.name: s for s in st.body if isinstance(s, ast.FunctionDef) and s.name.startswith("_") and not s.name.startswith("__") and s.name not in keep and _straight_line(s) is not None}
-                walk(st.body, ms)
+                walk(st.body, ms, st.name)
 
     for _ in range(2):
         before = total
@@ -1025,12 +1044,96 @@ def canonical_sum(tree: ast.Module) -> int:
     return total
 
 
+# ---------------------------------------------------------------------------------------------- (11) NumPy spellings
+def canonical_numpy(tree: ast.Module) -> int:
+    """`A.all()` / `A.any()` are written `np.all(A)` / `np.any(A)`; `not np.any(x != y)` is `np.all(x == y)` (also true for
+    NaN: both are False); `X.size` compared with 0 / 1 is `len(X)` (the arrays of this package are one-dimensional)."""
+    if not any(isinstance(n, ast.Import) and any(a.name == "numpy" and (a.asname or "numpy") == "np" for a in n.names) for n in ast.walk(tree)):
+        return 0
+    total = 0
+
+    def np_call(name, arg):
+        return ast.Call(func=ast.Attribute(value=ast.Name(id="np", ctx=ast.Load()), attr=name, ctx=ast.Load()), args=[arg], keywords=[])
+
+    class T(ast.NodeTransformer):
+        def visit_Call(self, c):
+            nonlocal total
+            self.generic_visit(c)
+            f = c.func
+            if isinstance(f, ast.Attribute) and f.attr in ("all", "any") and not c.args and not c.keywords and not (isinstance(f.value, ast.Name) and f.value.id in ("np", "numpy")):
+                total += 1
+                return ast.copy_location(np_call(f.attr, f.value), c)
+            return c
+
+        def visit_UnaryOp(self, u):
+            nonlocal total
+            self.generic_visit(u)
+            if isinstance(u.op, ast.Not) and isinstance(u.operand, ast.Call) and isinstance(u.operand.func, ast.Attribute) and u.operand.func.attr == "any" \
+                    and isinstance(u.operand.func.value, ast.Name) and u.operand.func.value.id == "np" and len(u.operand.args) == 1 \
+                    and isinstance(u.operand.args[0], ast.Compare) and len(u.operand.args[0].ops) == 1 and isinstance(u.operand.args[0].ops[0], ast.NotEq):
+                cmp_ = u.operand.args[0]
+                total += 1
+                return ast.copy_location(np_call("all", ast.Compare(left=cmp_.left, ops=[ast.Eq()], comparators=cmp_.comparators)), u)
+            return u
+
+        def visit_Compare(self, c):
+            nonlocal total
+            self.generic_visit(c)
+            if len(c.ops) == 1 and isinstance(c.left, ast.Attribute) and c.left.attr == "size" and isinstance(c.comparators[0], ast.Constant) and c.comparators[0].value in (0, 1):
+                total += 1
+                c.left = ast.copy_location(ast.Call(func=ast.Name(id="len", ctx=ast.Load()), args=[c.left.value], keywords=[]), c.left)
+            return c
+
+    T().visit(tree)
+    if total:
+        ast.fix_missing_locations(tree)
+    return total
+
+
+# ---------------------------------------------------------------------------------------------- (12) loop tests
+def canonical_loop_tests(tree: ast.Module) -> int:
+    """(a) `while True:` whose first statement is `if C: break` (no else) is `while not C:`; the same with a bare `return`
+    when the loop is the last statement of its function.
+    (b) `while F:` / `while not F:` where F is a plain local flag whose only definition reaching the loop from outside is a
+    constant that makes the test true, and whose every assignment inside the loop is directly followed by nothing but the end
+    of the iteration is *not* rewritten (too many shapes) — the CFG handles it: see R-DO-WHILE."""
+    total = 0
+    for fn in [n for n in ast.walk(tree) if isinstance(n, FUNC)]:
+        for holder in ast.walk(fn):
+            for fld in ("body", "orelse", "finalbody"):
+                block = getattr(holder, fld, None)
+                if not (isinstance(block, list) and block and isinstance(block[0], ast.stmt)):
+                    continue
+                for i, st in enumerate(block):
+                    if not (isinstance(st, ast.While) and isinstance(st.test, ast.Constant) and st.test.value is True and not st.orelse and st.body):
+                        continue
+                    first = st.body[0]
+                    if not (isinstance(first, ast.If) and not first.orelse and len(first.body) == 1):
+                        continue
+                    ex = first.body[0]
+                    is_break = isinstance(ex, ast.Break)
+                    is_ret = isinstance(ex, ast.Return) and ex.value is None and holder is fn and fld == "body" and i == len(block) - 1
+                    if not (is_break or is_ret) or len(st.body) < 2:
+                        continue
+                    # no `continue` may skip the test... it cannot: the test is the first statement of every iteration
+                    t = first.test
+                    st.test = t.operand if (isinstance(t, ast.UnaryOp) and isinstance(t.op, ast.Not)) else ast.UnaryOp(op=ast.Not(), operand=t)
+                    ast.copy_location(st.test, t)
+                    st.body = st.body[1:]
+                    total += 1
+    if total:
+        ast.fix_missing_locations(tree)
+    return total
+
+
 def normalise(tree: ast.Module, keep=frozenset(), facts=None) -> Dict[str, int]:
     k8 = positional_package_arguments(tree, facts)
     k9 = propagate_stable_aliases(tree, facts)
     k9 += propagate_pure_temporaries(tree, facts)
     k9 += propagate_stable_aliases(tree, facts)
     k10 = canonical_sum(tree)
+    k10 += canonical_numpy(tree)
+    k10 += canonical_loop_tests(tree)
     a = inline_trivial_helpers(tree)
     a2 = inline_straight_line_helpers(tree, keep)
     b = propagate_condition_temps(tree)
